@@ -11,8 +11,9 @@ pid = sys.argv[1]
 wt = f"/tmp/wt/{pid}"
 ROUND2 = "--round2" in sys.argv
 ROUND3 = "--round3" in sys.argv
-out = f"{wt}/_out3" if ROUND3 else (f"{wt}/_out2" if ROUND2 else f"{wt}/_out")
-PFX = "p" if ROUND3 else ("n" if ROUND2 else "m")
+ROUND4 = "--round4" in sys.argv
+out = f"{wt}/_out4" if ROUND4 else f"{wt}/_out3" if ROUND3 else (f"{wt}/_out2" if ROUND2 else f"{wt}/_out")
+PFX = "q" if ROUND4 else "p" if ROUND3 else ("n" if ROUND2 else "m")
 env = dict(os.environ, PYTHONPATH=f"{wt}/src", PYTHONDONTWRITEBYTECODE="1")
 PY = "/venv/bin/python"
 
